@@ -1168,6 +1168,10 @@ fn process(idx: u64, cls: &str, fill: &str, b: &[u8], cfg: &Cfg, sk: &mut Sinks,
     let ev01 = json!({
         "e": "dec", "i": idx, "cls": cls, "hex": hexs, "len": b.len(), "b0": if b.is_empty() { -1 } else { b[0] as i64 },
         "out": c1.out, "out2": c2.out, "h1": h31(&c1.text), "h2": h31(&c2.text),
+        // the two results compared as values (Message derives PartialEq): a NaN field makes a
+        // message unequal to itself although both render the same text
+        "eq": match (&c1.msg, &c2.msg) { (Some(a), Some(b)) => catch_unwind(AssertUnwindSafe(|| a == b)).unwrap_or(false), (None, None) => true, _ => false },
+        "fb_eq": match (&f1.msg, &f2.msg) { (Some(a), Some(b)) => catch_unwind(AssertUnwindSafe(|| a == b)).unwrap_or(false), (None, None) => true, _ => false },
         "disp": disp, "dbg": dbg,
         "fb_out": f1.out, "fb_out2": f2.out, "fb_h1": h31(&f1.text), "fb_h2": h31(&f2.text),
         "fb_used": f1.used, "fb_disp": fdisp, "fb_dbg": fdbg,
